@@ -221,7 +221,7 @@ def _scan(repo, cname, fname, wiring, demands):
             "eco": g.get("_ecomode") is not None, "present_s": present_s, "present_b": present_b, "accs": accs}
 
 
-def _oracle(repo, wiring, demands):
+def _oracle(repo, wiring, demands, with_demand_for_all=False):
     """the statement, directly: wired devices (some output label starts with the device key), with a
     Ud<device> demand, known to DEVICES, each once, in table order; class from the DEVICES row"""
     DEV = class_const(repo, "GeckoConstants", "DEVICES")
@@ -238,9 +238,9 @@ def _oracle(repo, wiring, demands):
         if row[3] == P:
             out["pumps"].append(("GeckoPump", d, row, {"demand": ud, "options": ["OFF", "LO", "HI"]}))
         elif row[3] == B:
-            out["blowers"].append(("GeckoBlower", d, row, None))
+            out["blowers"].append(("GeckoBlower", d, row, {"demand": ud, "options": ["OFF", "LO", "HI"]} if with_demand_for_all else None))
         elif row[3] == L:
-            out["lights"].append(("GeckoLight", d, row, None))
+            out["lights"].append(("GeckoLight", d, row, {"demand": ud, "options": ["OFF", "LO", "HI"]} if with_demand_for_all else None))
     return out
 
 
@@ -259,7 +259,11 @@ def inventory(ctx, repo, rule, scans):
                     continue
                 for kind in ("pumps", "blowers", "lights"):
                     n += 1
-                    g = [(c, k, tuple(r) if r is not None else None, dm) for c, k, r, dm in got[kind]]
+                    wd = {k: dm for _, k, _, dm in want["pumps"]}
+                    alld = _oracle(repo, wiring, demands, with_demand_for_all=True)
+                    okd = {k: dm for kk in ("pumps", "blowers", "lights") for _, k, _, dm in alld[kk]}
+                    # the demand argument is part of the statement for pumps; other classes may or may not be given theirs
+                    g = [(c, k, tuple(r) if r is not None else None, (dm if (kind == "pumps" or (dm is not None and dm != okd.get(k))) else None)) for c, k, r, dm in got[kind]]
                     w = [(c, k, tuple(r), dm) for c, k, r, dm in want[kind]]
                     ctx.ob(rule, f"{cname}.{fname}::{wname}::{dname}::{kind}", g == w,
                            f"{cname}.{fname}: outputs {wiring} with demands {'(all)' if dname == 'all-demands' else '(UdP2 missing)'} give {kind} "
